@@ -219,7 +219,27 @@ func sweepCases(a vh.Args) []*tcase {
 		}
 		var all []cand
 		for _, s := range slots {
-			for _, m := range missingComponentMutations(s.payload) {
+			ms := missingComponentMutations(s.payload)
+			if len(ms) > 40 {
+				// OT / VOLE messages carry arrays of hundreds of elements: every top-level component,
+				// then a seeded sample of the nested ones
+				r := vh.NewRng(a.Seed, "C12", "sweep-slot/"+s.typ, 0)
+				var keep, rest []mutation
+				for _, m := range ms {
+					if strings.Count(m.Path, "/") <= 1 {
+						keep = append(keep, m)
+					} else {
+						rest = append(rest, m)
+					}
+				}
+				for len(keep) < 40 && len(rest) > 0 {
+					i := r.Intn(len(rest))
+					keep = append(keep, rest[i])
+					rest = append(rest[:i], rest[i+1:]...)
+				}
+				ms = keep
+			}
+			for _, m := range ms {
 				all = append(all, cand{s, m})
 			}
 		}
@@ -293,9 +313,11 @@ func evalSweep(a vh.Args, res *vh.Result, c *tcase, verdict, arg string, mm func
 		case "invalid":
 			mm("prop", s.typ+"/missing-component-accepted", "the recipient completes the protocol although a declared component of the message is missing: "+detail, "C12 decoding validates like construction: a message with a missing component is refused by the decoder or by Validate", true)
 		default:
-			// shape changes (an emptied array, a shortened list) that the model has no rule for: the
-			// expectation REJECT still stands for a removed component
-			if c.mut.Kind == "array-empty" || c.mut.Kind == "element-null" || c.mut.Kind == "bytes-empty" {
+			// shape changes (an emptied array, a shortened list) that the model has no rule for, and
+			// payloads too large to hand to the model: the expectation REJECT still stands for a
+			// removed component
+			if c.mut.Kind == "array-empty" || c.mut.Kind == "element-null" || c.mut.Kind == "bytes-empty" ||
+				(verdict == "" && (c.mut.Kind == "field-null" || c.mut.Kind == "field-drop")) {
 				mm("prop", s.typ+"/missing-component-accepted", "the recipient completes the protocol although a component was emptied: "+detail, "C12 decoding validates like construction: a message with a missing component is refused by the decoder or by Validate", true)
 			}
 		}
